@@ -8,7 +8,7 @@
    to alltasks, the markers that ran, and the __jug__hasbarrier__ flag.  Nothing is assumed about
    [st] (any subset of results, any values) or about [p] unless stated. *)
 From Coq Require Import List PArith ZArith Bool.
-From JugV Require Import Model.Loader Proofs.LoaderFacts Proofs.CompoundFacts.
+From JugV Require Import Model.Loader Proofs.LoaderFacts Proofs.CompoundFacts Proofs.LoaderExtraFacts.
 Import ListNotations.
 
 (* ------------------------------------------------------------------ (a) what the loader lets through *)
@@ -254,6 +254,37 @@ Proof.
   destruct z as [|q|q]; simpl; try (repeat split; intros x Hx; simpl in *; tauto).
   repeat (destruct q as [q|q|]; simpl; try (repeat split; intros x Hx; simpl in *; tauto)).
 Qed.
+
+(* ------------------------------------------------------------------ (a') barriers ARE extra dependencies
+   [extras s [] []] gives every task of the recorded sequential path [s] of a jugfile its barrier / bvalue edges:
+   the tasks defined before a barrier() in front of it and the tasks under the argument of a bvalue() in front
+   of it.  On ANY store holding sequential values, loading the jugfile puts into alltasks EXACTLY the tasks all
+   of whose extra dependencies are stored.  This is the reading used in (b) for many workers, where the edges
+   are dependencies of the execution protocol.  (Jugfiles whose path has no CompoundTask: those are C18.) *)
+Theorem C14_loading_is_waiting_for_barrier_edges : forall (p : jprog) (s : spine) (w : val) (st : store),
+  unfold p [] = Some (s, w) -> compound_free s = true -> agrees st (slog s) ->
+  forall t, In t (map tid_of (l_tasks (load st p))) <->
+            exists ex, In (t, ex) (extras s [] []) /\ (forall u, In u ex -> stored st u = true).
+Proof. exact load_is_waiting_for_the_extra_dependencies. Qed.
+Print Assumptions C14_loading_is_waiting_for_barrier_edges.
+
+Definition ex_bar_prog : jprog :=
+  Def (mkTask 1 [AVal (VInt 1%Z)] ex_inc)
+  (Def (mkTask 2 [ATask 1] ex_dbl)
+  (Barrier
+  (Def (mkTask 3 [ATask 2] ex_inc)
+  (BValue (ATask 3) (fun v =>
+     Def (mkTask 4 [AVal v] ex_dbl) (Ret (ATask 4))))))).
+Example C14_barrier_edges_nonvacuous :
+  match unfold ex_bar_prog [] with
+  | Some (s, _) => compound_free s = true /\
+                   extras s [] [] = [(1, []); (2, []); (3, [2; 1]); (4, [3; 2; 1])]%positive
+  | None => False
+  end /\
+  map tid_of (l_tasks (load [] ex_bar_prog)) = [1; 2]%positive /\
+  map tid_of (l_tasks (load [(1, VInt 2%Z); (2, VInt 4%Z)]%positive ex_bar_prog)) = [1; 2; 3]%positive /\
+  map tid_of (l_tasks (load [(1, VInt 2%Z); (2, VInt 4%Z); (3, VInt 5%Z)]%positive ex_bar_prog)) = [1; 2; 3; 4]%positive.
+Proof. vm_compute. repeat split; reflexivity. Qed.
 
 (* ------------------------------------------------------------------ (b) for any number of WORKERS
    The theorems above are about one worker.  For many workers, barrier() and bvalue() are extra
